@@ -373,6 +373,10 @@ func c17(c *Ctx) {
 		}
 	}
 
+	c.R.Rule("R17.10", "a lock package's neighbours are all of its dependencies", 1,
+		"a dependency that Neighbors() leaves out is not an edge of the graph: a cycle through it (a package depending on itself) is not detected, a missing one is not installed")
+	c.projectionComplete(c.P.Method("apis/pkg/v1beta1", "LockPackage", "Neighbors"), "LockPackage.Neighbors is complete")
+
 	c.R.Rule("R17.5", "Resolve reports success only when complete", 4, "a revision would report its dependencies satisfied while some are missing or invalid")
 	if rs := c.method(pkgRevision, "PackageDependencyManager", "Resolve"); rs != nil {
 		// every direct dependency is looked at: the loop that checks versions is left early only with an error
